@@ -211,6 +211,20 @@ theorem scanDir_total (f : FormatTables) (h : FormatOK f = true) :
           exact ⟨nofun, nofun⟩
         | true =>
           simp only [↓reduceIte]
+          cases hq : f.quotes.contains b with
+          | true =>
+            simp only [↓reduceIte]
+            cases rest with
+            | nil => exact ⟨nofun, nofun⟩
+            | cons c rest' =>
+              simp only
+              split
+              · apply ih
+                · simp only [List.length_cons] at hlr; omega
+                · intro x hx; exact hrest x (List.mem_cons_of_mem _ hx)
+              · exact ⟨nofun, nofun⟩
+          | false =>
+          simp only [Bool.false_eq_true, ↓reduceIte]
           cases hp : f.params.contains b with
           | false =>
             simp only [Bool.false_eq_true, ↓reduceIte]
@@ -328,6 +342,7 @@ def tinyFormat : FormatTables :=
     continues := [58, 48, 49]
     params := [48, 49]
     stepBack := [48, 49]
+    quotes := []
     defaultRaises := true }
 
 example : FormatOK tinyFormat = true := by decide +kernel
